@@ -129,6 +129,8 @@ pub fn run(ctx: &Ctx) -> Report {
     rep.part("data/hole layouts, 4 KiB units", st, serde_json::json!({"max_units": if q { 5 } else { 7 }}));
     let st = scen_batch(ctx, trees(), &[Policy::P0, Policy::P1], j);
     rep.part("small trees", st, serde_json::json!({}));
+    let st = scen_batch(ctx, c11::far_scenarios(), &[Policy::P1], j);
+    rep.part("data islands straddling the 2 GiB and 4 GiB offsets", st, serde_json::json!({}));
     if !q {
         let st = scen_batch(ctx, layouts(false, 65536, 5), &[Policy::P1], j);
         rep.part("data/hole layouts, 64 KiB units", st, serde_json::json!({"max_units": 5}));
